@@ -1,4 +1,5 @@
 import Treepath.Proofs.Drive
+import Treepath.Proofs.Work
 import Treepath.Spec.Eval
 import Treepath.Generated.Budget
 import Treepath.Proofs.MachineLemmas
@@ -69,6 +70,24 @@ theorem terminates_with_spec_work (steps : Array (Step J)) (src : Src J) (hq : Q
 theorem exhausted_is_idle {α} (view : α → View α) (steps : Array (Step α)) (src : Src α) (k : Nat) (st : St α)
     (h : st.act = .done) : hrun view steps src k st = (st, List.replicate k .stop) :=
   hrun_done view steps src k st h
+
+/-- **work bound**: on every finite JSON tree, the number of match attempts of the search (the
+trace events of the search itself; a predicate's nested search is bounded by its own
+instance of this theorem) is at most **twice** the number of node/step examinations the
+path's definition requires -/
+theorem attempts_at_most_twice_examinations (p : List (Step J)) (hp : PredsStamped p) (vi : Nat) (n : MNode J) :
+    attemptsTop (stream p vi n) ≤ 2 * exams p n :=
+  work_bound p hp vi n
+
+/-- … and that is the work the traverser really does: its complete run emits that stream -/
+theorem machine_work_bound (steps : Array (Step J)) (src : Src J) (hq : Quiet steps.toList)
+    (hp : PredsStamped steps.toList) :
+    ∃ k stD, (hrun J.view steps src (1 + k) freshIter).1 = stD ∧ stD.act = .done ∧
+      attemptsTop (hrun J.view steps src (1 + k) freshIter).2 ≤ 2 * exams steps.toList src.rootNode := by
+  obtain ⟨k, stD, h1, h2⟩ := full_run steps src hq
+  refine ⟨k, stD, by rw [h1], h2, ?_⟩
+  rw [h1]
+  exact work_bound _ hp 0 _
 
 /-- every `__next__` performs at most `loopBudget` actions: `next` is defined by structural
 recursion on the budget (Lean accepts the definition only because it terminates), and when
